@@ -1,13 +1,12 @@
 #!/bin/bash
-# tools/regress_seeded.sh [dir-glob]: re-applies every kept breaking change in seeded/ to a scratch worktree
-# and runs the quick check of the property it breaks (then, only if that one stays silent, the checks recorded
-# in its meta.json).  One line per change; exit 1 if a change is no longer caught by anything.
+# tools/regress_seeded.sh [dir-glob] : re-applies every kept breaking change in seeded/ to a scratch worktree and
+# runs the quick check of the property it breaks (then, only if that one stays silent, the checks recorded in its
+# meta.json). One line per change (JOBS at a time, default 4); exit 1 if a change is no longer caught by anything.
 cd "$(dirname "$0")/.." || exit 1
-LOGS=$(mktemp -d /var/tmp/xpv-regress.XXXXXX)
-rc=0
-for d in seeded/${1:-*}/; do
-  id=$(basename "$d")
-  [ -f "$d/patch.diff" ] || continue
+export LOGS=$(mktemp -d /var/tmp/xpv-regress.XXXXXX)
+one() {
+  d="seeded/$1"; id="$1"
+  [ -f "$d/patch.diff" ] || exit 0
   prop=$(python3 -c "import json;print(json.load(open('$d/meta.json'))['breaks_property'])")
   others=$(python3 -c "import json;print(' '.join(x for x in json.load(open('$d/meta.json')).get('caught_by_quick_checks',[]) if x!='$prop'))")
   tools/trymut.sh "rg-$id" "$d/patch.diff" - $prop > "$LOGS/$id.log" 2>&1
@@ -16,8 +15,8 @@ for d in seeded/${1:-*}/; do
     tools/trymut.sh "rg-$id" "$d/patch.diff" - $others > "$LOGS/$id.2.log" 2>&1
     res="(own check silent) $(grep "^RESULT" "$LOGS/$id.2.log" | sed 's/.*caught by://')"
   fi
-  echo "$id breaks=$prop caught_by=$res"
-  case "$res" in *C[0-9][0-9]*) ;; *) rc=1; tail -3 "$LOGS/$id.log";; esac
-done
+  case "$res" in *C[0-9][0-9]*) echo "$id breaks=$prop caught_by=$res";; *) echo "$id breaks=$prop NOT-CAUGHT $res $(tail -2 "$LOGS/$id.log" | tr '\n' ' ' | cut -c1-200)";; esac
+}
+export -f one
+ls -d seeded/${1:-*}/ | xargs -n1 basename | xargs -P "${JOBS:-4}" -I{} bash -c 'one {}'
 rm -rf "$LOGS"
-exit $rc
